@@ -214,6 +214,9 @@ def variants():
             "f*f": lambda: lit * f * u * v + cc * f * v * u,
             "grad index pattern a": lambda: grad(u)[i] * grad(v)[i] * grad(f)[j] * grad(g)[j],
             "grad index pattern b": lambda: grad(u)[i] * grad(v)[j] * grad(f)[i] * grad(g)[j],
+            "free-then-fixed A[i,0]": lambda: dot(as_vector(grad(grad(f))[i, 0], i), grad(v)) * u,
+            "fixed-then-free A[0,i]": lambda: dot(as_vector(grad(grad(f))[0, i] * (1 + 0 * g), i), grad(v)) * u if False else dot(as_vector(grad(grad(g))[0, i], i), grad(v)) * u
+            if False else dot(as_vector(grad(grad(f))[0, i], i), grad(v)) * u,
             "fixed index 0": lambda: grad(u)[0] * grad(v)[0],
             "fixed index 1": lambda: grad(u)[1] * grad(v)[1],
             "restricted +": lambda: f("+") * u("+") * v("+"),
@@ -243,6 +246,7 @@ def variants():
     pair("same coefficient twice vs two coefficients", base, {}, {"expr": "f*f"})
     pair("index contraction pattern", base, {"expr": "grad index pattern a"}, {"expr": "grad index pattern b"})
     pair("fixed index value", base, {"expr": "fixed index 0"}, {"expr": "fixed index 1"})
+    pair("first free index vs fixed index 0 swapped (A[i,0] vs A[0,i])", base, {"expr": "free-then-fixed A[i,0]", "degree": 2}, {"expr": "fixed-then-free A[0,i]", "degree": 2})
     pair("restriction side", base, {"expr": "restricted +"}, {"expr": "restricted -"})
     pair("math function", base, {"expr": "sin"}, {"expr": "cos"})
     pair("integer exponent", base, {"expr": "power 2"}, {"expr": "power 3"})
